@@ -252,7 +252,7 @@ prop(
         "SciPy's documented contract: _matvec/_matmat compute A x, _rmatvec/_rmatmat compute A^H x, _adjoint/_transpose return A^H / A^T",
         "the source of the installed scipy/sparse/linalg/_interface.py is what runs",
     ],
-    rules=[e6.rule_projector, e6.rule_base_state, e6.rule_projector_call_sites],
+    rules=[e6.rule_projector, e6.rule_base_state, e6.rule_projector_construction_sites],
     explanation=(
         "With self = P = 1 - R L† every method of ComplementProjector is interpreted abstractly: _apply denotes P v, "
         "_apply_left denotes P† v, the objects built by _adjoint / conjugate / _transpose (both L = R and L != R) "
